@@ -47,17 +47,23 @@ type j5sDecl struct {
 	name string
 }
 
-func randJ5sSource(r *vh.Rand, pkg string) string {
+func randJ5sSource(r *vh.Rand, pkg string, force bool) string {
 	var decls []j5sDecl
 	nEnum := r.Range(1, 2)
 	for i := 0; i < nEnum; i++ {
 		decls = append(decls, j5sDecl{"enum", fmt.Sprintf("Mode%d", i)})
 	}
 	nObj := r.Range(2, 4)
+	if force {
+		nObj = 4
+	}
 	for i := 0; i < nObj; i++ {
 		decls = append(decls, j5sDecl{"object", fmt.Sprintf("Obj%d", i)})
 	}
 	nOne := r.Range(0, 2)
+	if force {
+		nOne = 2
+	}
 	for i := 0; i < nOne; i++ {
 		decls = append(decls, j5sDecl{"oneof", fmt.Sprintf("Pick%d", i)})
 	}
@@ -94,6 +100,10 @@ func randJ5sSource(r *vh.Rand, pkg string) string {
 		return s
 	}
 	flattened := map[string]bool{}
+	if force {
+		// the forced chain flattens Obj1 and Obj2: no random field may flatten them a second time
+		flattened["Obj1"], flattened["Obj2"] = true, true
+	}
 	fieldTy := func(self string) (ty string, attrs []string) {
 		switch r.Intn(12) {
 		case 0, 1:
@@ -142,12 +152,45 @@ func randJ5sSource(r *vh.Rand, pkg string) string {
 		switch d.kind {
 		case "enum":
 			fmt.Fprintf(&sb, "enum %s {\n", d.name)
-			for _, o := range []string{"ALPHA", "BETA", "GAMMA_RAY"}[:r.Range(1, 3)] {
+			opts := []string{"ALPHA", "BETA", "GAMMA_RAY"}[:r.Range(1, 3)]
+			if force {
+				// an option whose name is the enum prefix + an earlier option's name
+				opts = []string{"ALPHA", strings.ToUpper(d.name) + "_ALPHA", "BETA"}
+			}
+			for _, o := range opts {
 				fmt.Fprintf(&sb, "\toption %s\n", o)
 			}
 			sb.WriteString("}\n\n")
 		case "object":
 			fmt.Fprintf(&sb, "object %s {\n", d.name)
+			if force {
+				// the first package of every run: a flatten chain Obj0 > Obj1 > Obj2, every scalar spelling
+				// (spread over the objects), arrays and maps of objects / oneofs / enums
+				var forced []string
+				switch d.name {
+				case "Obj0":
+					forced = []string{"object:Obj1|flatten", "array:object:Obj3", "map:oneof:Pick0", "oneof:Pick1", "enum:Mode0"}
+				case "Obj1":
+					forced = []string{"object:Obj2|flatten", "array:enum:Mode0", "map:object:Obj3", "array:oneof:Pick1"}
+				case "Obj2":
+					forced = append(forced, j5sScalars[:8]...)
+				case "Obj3":
+					forced = append(forced, j5sScalars[8:]...)
+				}
+				for i, f := range forced {
+					nm := names(1)[0]
+					if strings.HasSuffix(f, "|flatten") {
+						flattened[strings.TrimPrefix(strings.TrimSuffix(f, "|flatten"), "object:")] = true
+						fmt.Fprintf(&sb, "\tfield %s %s {\n\t\tflatten = true\n\t}\n", nm, strings.TrimSuffix(f, "|flatten"))
+						continue
+					}
+					mark := ""
+					if i%3 == 1 && !strings.Contains(f, "object") && !strings.Contains(f, "oneof") && !strings.HasPrefix(f, "array") && !strings.HasPrefix(f, "map") && f != "any" {
+						mark = "? "
+					}
+					fmt.Fprintf(&sb, "\tfield %s %s%s\n", nm, mark, f)
+				}
+			}
 			for _, n := range names(r.Range(1, 7)) {
 				ty, attrs := fieldTy(d.name)
 				mark := ""
@@ -180,7 +223,7 @@ func randJ5sSource(r *vh.Rand, pkg string) string {
 
 func randJ5sFile(r *vh.Rand, idx int) (files []protoreflect.FileDescriptor, src string, err error) {
 	pkg := fmt.Sprintf("rndj%d.v1", idx)
-	src = randJ5sSource(r, pkg)
+	src = randJ5sSource(r, pkg, idx == 0)
 	defer func() {
 		if rec := recover(); rec != nil {
 			err = fmt.Errorf("compiler panic: %v", rec)
@@ -216,6 +259,7 @@ func randDescFile(r *vh.Rand, idx int) (protoreflect.FileDescriptor, error) {
 		{typ: T(descriptorpb.FieldDescriptorProto_TYPE_MESSAGE), typeName: ".j5.types.decimal.v1.Decimal", msgLike: true},
 		{typ: T(descriptorpb.FieldDescriptorProto_TYPE_MESSAGE), typeName: ".google.protobuf.Timestamp", msgLike: true},
 	}
+	force := idx == 0
 	nEnum := r.Range(1, 2)
 	var enums []*descriptorpb.EnumDescriptorProto
 	for i := 0; i < nEnum; i++ {
@@ -224,13 +268,26 @@ func randDescFile(r *vh.Rand, idx int) (protoreflect.FileDescriptor, error) {
 		e := &descriptorpb.EnumDescriptorProto{Name: proto.String(name)}
 		e.Value = append(e.Value, &descriptorpb.EnumValueDescriptorProto{Name: proto.String(up + "_UNSPECIFIED"), Number: proto.Int32(0)})
 		num := int32(0)
-		for _, v := range []string{"ONE", "TWO", up + "_X", "LAST_ONE"}[:r.Range(1, 4)] {
+		// "X" before "<PREFIX>X": the second one's short name is the prefix + the first one's short name
+		// (OptionByName must look for the name as written before trimming the prefix)
+		vals := []string{"X", up + "_X", "ONE", "LAST_ONE"}
+		nv := r.Range(1, 4)
+		if force && i == 0 {
+			nv = 4
+		}
+		for _, v := range vals[:nv] {
 			num += int32(r.Range(1, 3))
 			e.Value = append(e.Value, &descriptorpb.EnumValueDescriptorProto{Name: proto.String(up + "_" + v), Number: proto.Int32(num)})
 		}
 		enums = append(enums, e)
 	}
+	// the first file of every run always has the shapes that random draws may miss: three nested levels
+	// of flatten (Obj0 > Obj1 > Obj2 > Obj3) with an exposed oneof and at least three members in each
+	// flattened child, proto3 optional members innermost
 	nObj := r.Range(2, 5)
+	if force {
+		nObj = r.Range(4, 5)
+	}
 	nWrap := r.Range(0, 2)
 	var objNames, wrapNames []string
 	for i := 0; i < nObj; i++ {
@@ -327,7 +384,7 @@ func randDescFile(r *vh.Rand, idx int) (protoreflect.FileDescriptor, error) {
 		if r.Chance(35) {
 			oneofs = append(oneofs, oo{false, r.Range(2, 3)})
 		}
-		if r.Chance(35) {
+		if r.Chance(35) || (force && oi >= 1 && oi <= 3) {
 			oneofs = append(oneofs, oo{true, r.Range(1, 3)})
 		}
 		for i, o := range oneofs {
@@ -341,9 +398,19 @@ func randDescFile(r *vh.Rand, idx int) (protoreflect.FileDescriptor, error) {
 		}
 		var optionals []*descriptorpb.FieldDescriptorProto
 		nf := r.Range(1, 7)
+		if force && nf < 3 {
+			nf = 3
+		}
 		for i := 0; i < nf; i++ {
 			name := take()
-			switch r.Intn(10) {
+			choice := r.Intn(10)
+			if force && i == 0 && oi+1 < len(objNames) && oi < 3 {
+				choice = 4 // flatten the next object
+			}
+			if force && i == 1 && oi == 3 {
+				choice = 9 // a plain member, made optional below when it is a scalar
+			}
+			switch choice {
 			case 0, 1: // repeated
 				fd := build(name, nextNum(), elem(false))
 				fd.Label = descriptorpb.FieldDescriptorProto_LABEL_REPEATED.Enum()
@@ -367,6 +434,9 @@ func randDescFile(r *vh.Rand, idx int) (protoreflect.FileDescriptor, error) {
 						cands = append(cands, objNames[oj])
 					}
 				}
+				if force && i == 0 && oi+1 < len(objNames) && !flattened[objNames[oi+1]] {
+					cands = []string{objNames[oi+1]}
+				}
 				if len(cands) > 0 {
 					c := vh.Pick(r, cands)
 					flattened[c] = true
@@ -378,7 +448,7 @@ func randDescFile(r *vh.Rand, idx int) (protoreflect.FileDescriptor, error) {
 			default:
 				f := elem(true)
 				fd := build(name, nextNum(), f)
-				if !f.msgLike && r.Chance(30) {
+				if !f.msgLike && (r.Chance(30) || (force && oi == 3 && i == 1)) {
 					fd.Proto3Optional = proto.Bool(true)
 					optionals = append(optionals, fd)
 				}
